@@ -186,7 +186,7 @@ def gen_case(seed, run, tier):
             rw.shuffle(ks)
         op = {"id": oid, "op": "construct", "rx": rx, "subs": {"kind": kind, "keys": ks},
               "sort": rw.choice([None, None, None, True, False]),
-              "checks": rw.choice(["default", "default", "none"]) if not formula_mode else rw.choice(["nobalance", "nobalance", "none"]),
+              "checks": rw.choice(["default", "default", "default", "none", "nodup", "nokeys"]) if not formula_mode else rw.choice(["nobalance", "nobalance", "none", "nodup", "nokeys"]),
               "missing": False, "fault": None}
         if kind == "none":
             op["subs"]["keys"] = []
@@ -292,6 +292,7 @@ def gen_case(seed, run, tier):
                 op["c0"] = [rw.choice([0, 0, 1, 2, 3, 5, 8, 20]) * rw.choice([1, 1, 2, 4, 8]) for _ in keys]  # eighths
                 op["moves"] = [{"rel": rw.randrange(len(relations)), "t": rw.randint(0, 8), "dir": rw.choice([-1, 1])}
                                for _ in range(rw.randint(0, 6))] if relations else []
+                op["min_cb"] = rw.choice([None, None, "numpy", "twopass", "strict"])
             elif kind == "eq":
                 op["b"] = b
             ops.append(op)
@@ -309,6 +310,10 @@ def _checks_kwargs(name):
         return {}
     if name == "nobalance":
         return {"dont_check": {"balance"}}
+    if name == "nodup":
+        return {"dont_check": {"duplicate", "balance"}}
+    if name == "nokeys":
+        return {"dont_check": {"substance_keys", "balance"}}
     return {"checks": ()}
 
 
@@ -317,6 +322,10 @@ def _checks_set(name):
         return set(ALL_CHECKS)
     if name == "nobalance":
         return set(ALL_CHECKS) - {"balance"}
+    if name == "nodup":
+        return set(ALL_CHECKS) - {"balance", "duplicate"}
+    if name == "nokeys":
+        return set(ALL_CHECKS) - {"balance", "substance_keys"}
     return set()
 
 
@@ -902,8 +911,20 @@ def execute(case):
             c0 = [Fraction(v, 8) for v in op["c0"]]
             cmap = _defaulting(dict(zip(case["keys"], c0)), Fraction(0))
             c0s = [cmap[k] for k in subs]
+            bkw = {}
+            if op.get("min_cb") == "numpy":
+                bkw["min_"] = np.min
+            elif op.get("min_cb") == "twopass":  # a user minimum that validates its candidates first (reads them twice)
+                bkw["min_"] = lambda seq: (sum(1 for _ in seq), min(seq))[1]
+            elif op.get("min_cb") == "strict":  # a user minimum that refuses NaN by raising ValueError
+                def _strict_min(seq):
+                    vals_ = list(seq)
+                    if any(v != v for v in vals_):
+                        raise ValueError("NaN among candidates")
+                    return min(vals_)
+                bkw["min_"] = _strict_min
             try:
-                ub = obj.upper_conc_bounds({k: float(cmap[k]) for k in reversed(subs)})
+                ub = obj.upper_conc_bounds({k: float(cmap[k]) for k in reversed(subs)}, **bkw)
             except Exception as ex:
                 refused(rec, idx, kind, ex, False)
                 continue
